@@ -19,7 +19,8 @@ from common import hexs
 CONFIG = {
     "id": "C09b",
     "rule": ("seeded random flow-style YAML documents x straight key/index paths made of an existing prefix of every "
-             "length (including the empty and the complete one, prefixes ending at null, at a scalar, at a set) and a "
+             "length (including the empty and the complete one, prefixes ending at a scalar, at a set, and - 30 % of the "
+             "cases of a document that holds nulls - at a null, where the tail is built beneath the null) and a "
              "missing tail of 0-3 segments (new keys incl. one-character interned ones, indexes len, len+1, len+3, "
              "0-2 inside new sequences) x scalar values of every type x value formats x {set_value, optional "
              "get_nodes}.  non-trivial = something was created; distinct = distinct case."),
